@@ -45,7 +45,9 @@ fn run_interner<T: Ord + Clone + std::fmt::Debug>(
             return Err(format!("fresh interner: inserting distinct value #{i} gave inserted={ins}"));
         }
     }
-    let mut it: Interner<T> = Interner::new();
+    // both public constructors must give the same table (chosen by a function of the case)
+    let mut it: Interner<T> = if ops.len() % 2 == 1 { Interner::default() } else { Interner::new() };
+    obs.class(if ops.len() % 2 == 1 { "constructor/default" } else { "constructor/new" });
     let mut list: Vec<T> = Vec::new();
     let mut dup_after_other = false;
     for (step, op) in ops.iter().enumerate() {
@@ -209,7 +211,8 @@ fn self_ref(shape: u8, next: u32) -> MType {
 
 pub fn builder_body(ops: &Vec<BOp>, obs: &mut Obs) -> Result<(), String> {
     let pool = pool();
-    let mut b = PortableRegistryBuilder::new();
+    let mut b = if ops.len() % 2 == 1 { PortableRegistryBuilder::default() } else { PortableRegistryBuilder::new() };
+    obs.class(if ops.len() % 2 == 1 { "constructor/default" } else { "constructor/new" });
     let mut list: Vec<MType> = Vec::new();
     let mut dup_after_other = false;
     let mut register = |b: &mut PortableRegistryBuilder, list: &mut Vec<MType>, t: MType, step: usize, announced: Option<u32>| -> Result<bool, String> {
@@ -279,11 +282,11 @@ pub fn builder_body(ops: &Vec<BOp>, obs: &mut Obs) -> Result<(), String> {
                 obs.class(if want.is_some() { "get/hit" } else { "get/miss" });
             }
             BOp::Finish => {
-                check_finish(&b, &list, step)?;
+                check_finish(&mut b, &list, step)?;
             }
         }
     }
-    check_finish(&b, &list, ops.len())?;
+    check_finish(&mut b, &list, ops.len())?;
     if dup_after_other {
         obs.nontrivial(ops);
     }
@@ -293,7 +296,8 @@ pub fn builder_body(ops: &Vec<BOp>, obs: &mut Obs) -> Result<(), String> {
     Ok(())
 }
 
-fn check_finish(b: &PortableRegistryBuilder, list: &[MType], step: usize) -> Result<(), String> {
+#[allow(clippy::needless_pass_by_ref_mut)]
+fn check_finish(b: &mut PortableRegistryBuilder, list: &[MType], step: usize) -> Result<(), String> {
     let r = from_lib(&b.finish());
     if r.types.len() != list.len() {
         return Err(format!("step {step}: finish() lists {} values, list model has {}", r.types.len(), list.len()));
